@@ -223,6 +223,10 @@ def shared_objects(ctx, rng):
     for cutter in (BsaI, BpiI):
         for base in (core.Entry, core.EntryVector):
             classes = [type("G1", (base,), dict(cutter=cutter)), type("G2", (base,), dict(cutter=cutter))]
+            if base is core.Entry:
+                # the other module families of the core (Product, Cassette, Device): same structure, other class
+                classes += [type("G" + b_.__name__, (b_,), dict(cutter=cutter)) for b_ in (core.Product, core.Cassette, core.Device)
+                            if isinstance(b_, type)]
             inst, _ = gen.instance(classes[0].structure(), rng, run=7)
             site = cutter.site
             # origin inside the leading recognition site / inside the match / outside it
